@@ -28,8 +28,8 @@ RULE = ("byte streams = sequences of frames drawn from: valid requests for the 2
 ASSUMPTIONS = [
     "the Lean theorems are about the session for EVERY decoder verdict / engine behaviour / encoder satisfying "
     "EncoderOk; the decoder verdict used in the comparison is the real RequestMessage.read run separately on the frame",
-    "EncoderOk (error responses encodable and < 1 MiB; engine responses encodable) is a hypothesis of "
-    "one_response_per_frame / loop_continues; it is checked on every response the real session produced in this run",
+    "EncoderOk (error responses encodable and < 1 MiB) is the only hypothesis of one_response_per_frame / "
+    "loop_continues / oversize_replaced; it is checked on every response the real session produced in this run",
     "blocking on a stream that ends inside a frame is not modelled: the fake connection reports the peer closed",
 ]
 TRUSTED = ["fake TLS connection object (recv/sendall/getpeercert/...) standing for the ssl socket",
@@ -153,8 +153,9 @@ def monitor_run(rig, res, obs, verdicts, cert_ok):
             c = o["calls"][0]
             m, L = c["out"]["max"], c["len"]
             if L is None and c.get("write_raised"):
-                # the response could not be encoded: whatever replaced it must be a General Failure error
-                if not S.is_error(ob, "GENERAL_FAILURE"):
+                # the response could not be encoded: the client must be told General Failure (or Response Too
+                # Large when it asked for a maximum)
+                if not (S.is_error(ob, "GENERAL_FAILURE") or (m is not None and S.is_error(ob, "RESPONSE_TOO_LARGE"))):
                     fails.append(("c12:unencodable-response-answer", "frame %d: answer to an unencodable response was %s"
                                   % (i, ob["items"])))
             elif L is None:
